@@ -298,6 +298,14 @@ class Cond:
         return f"IF[{s.g!r}]⟨{s.a!r} | {s.b!r}⟩"
 
 
+class LazyList(list):
+    """the concrete items an ITERATOR (map / filter / zip / generator / itertools object) still has to yield: consumed by next(), and one such
+    object handed to zip several times yields consecutive items (zip(it, it) pairs neighbours)"""
+
+
+_LAZY_BUILTINS = {'map', 'filter', 'zip', 'iter', 'reversed', 'enumerate'}
+
+
 class BoolSel(Cond):
     """`first or rest` / `first and rest` on operands that are not truth values: the selected operand; its truth is the connective"""
     def __new__(cls, op, g, first, rest):
@@ -820,6 +828,11 @@ class Evaluator:
         if isinstance(op, (ast.Is, ast.IsNot)):
             if b is None and isinstance(a, Opq) and a.k and a.k[0] == 'exc': return isinstance(op, ast.IsNot)
             if b is None and isinstance(a, Poly) and s.self_class is not None and a.as_atom() == s.self_atom: return isinstance(op, ast.IsNot)     # the object itself is never None
+            if b is None and isinstance(a, Poly) and not a.is_const():
+                at_ = a.as_atom()
+                # the result of arithmetic or of a numeric function is a number, never None
+                if at_ is None or (isinstance(at_, tuple) and at_ and at_[0] in ('round', 'abs', 'real', 'imag', 'sqrt', 'exp', 'cos', 'sin', 'tan', 'angle', 'len', 'int', 'floor', 'ceil', 'conj', 'log', 'log10')):
+                    return isinstance(op, ast.IsNot)
             if b is None and not isinstance(a, (Opq,)) and not (isinstance(a, Poly) and not a.is_const()):
                 return (a is None) == isinstance(op, ast.Is)
             sa, sb = _sentinel(a), _sentinel(b)
@@ -1015,7 +1028,7 @@ class Evaluator:
                     sub = s.ev(inner, env3, mod, depth)
                     if isinstance(sub, (list, tuple)): out += list(sub)
                     else: ok_ = False; break
-                if ok_: return out if kind in ('list', 'gen') else Opq('set', *out)
+                if ok_: return (LazyList(out) if kind == 'gen' else out) if kind in ('list', 'gen') else Opq('set', *out)
         env2 = {'__parent__': env}
         gens = []
         for g in e.generators:
@@ -1050,7 +1063,7 @@ class Evaluator:
                         if all(isinstance(k, (str, int, bool)) or k is None or (isinstance(k, Poly) and k.is_const()) for k, _ in out):
                             return {(k if not isinstance(k, Poly) else _HK(k)): v for k, v in out}
                     else:
-                        return out if kind in ('list', 'gen') else Opq('set', *out)
+                        return (LazyList(out) if kind == 'gen' else out) if kind in ('list', 'gen') else Opq('set', *out)
             depth_id = len(gens)
             pos_ = _positions_of(it)
             if pos_ is not None and isinstance(g.target, ast.Name):
@@ -1242,8 +1255,8 @@ class Evaluator:
                     return cv_
             return Poly.atom(('.', tkey(v), attr))
         if isinstance(v, dict):
-            if attr in ('keys', 'values', 'items', 'get', 'pop', 'update', 'copy'): return Opq('dictmethod', attr, v)
-        if isinstance(v, (list, tuple)) and attr in ('index', 'append', 'count', 'copy'): return Opq('listmethod', attr, v)
+            if attr in ('keys', 'values', 'items', 'get', 'pop', 'update', 'copy', '__getitem__', '__contains__'): return Opq('dictmethod', attr, v)
+        if isinstance(v, (list, tuple)) and attr in ('index', 'append', 'count', 'copy', '__getitem__', '__contains__'): return Opq('listmethod', attr, v)
         if isinstance(v, str): return Opq('strmethod', attr, v)
         if attr in ('real', 'imag') and isinstance(v, (Poly, int, F, bool)):
             return s.npcall(attr, [as_poly(v)], {})
@@ -1306,6 +1319,9 @@ class Evaluator:
 
     def getitem(s, v, k):
         if isinstance(v, Cond): return Cond(v.g, s.getitem(v.a, k), s.getitem(v.b, k))
+        if isinstance(v, Opq) and len(v.k) == 2 and v.k[0] == 'globals' and isinstance(v.k[1], Ref) and isinstance(k, str):
+            r_ = s.prog.resolve(v.k[1].mod, k)                # globals()['name'] is the module-level name
+            if r_ is not None and r_[0] != 'unresolved': return s.lookup(k, {'__parent__': None}, v.k[1].mod)
         if isinstance(v, Rec) and isinstance(k, Poly) and k.is_const() and s.namedtuple_items(v) is not None: v = s.namedtuple_items(v)
         if isinstance(v, Opq) and v.k and v.k[0] in ('list', 'tuple') and len(v.k) == 2 and isinstance(v.k[1], Poly) and isinstance(k, Poly) and k.real_const() is not None:
             v = v.k[1]          # a copy of a sequence is indexed like the sequence
@@ -1611,7 +1627,13 @@ class Evaluator:
             return s.call_fn(fv.node, fv.mod, a2, kw, fv.env, depth + 1)
         if isinstance(fv, Ref):
             if fv.kind == 'npfun': return s.npcall(fv.name, args, kw)
-            if fv.kind == 'builtin': return s.builtin(fv.name, args, kw, mod, depth)
+            if fv.kind == 'builtin':
+                if fv.name == 'zip' and len(args) >= 2 and not kw and isinstance(args[0], LazyList) and all(x_ is args[0] for x_ in args[1:]):
+                    n_ = len(args); it_ = args[0]                 # zip(it, it, ...): consecutive items of ONE iterator, in groups
+                    return LazyList([tuple(it_[i_ * n_ + j_] for j_ in range(n_)) for i_ in range(len(it_) // n_)])
+                if fv.name == 'next' and args and not kw and isinstance(args[0], LazyList) and args[0]: return args[0].pop(0)       # the iterator advances
+                r_ = s.builtin(fv.name, args, kw, mod, depth)
+                return LazyList(r_) if fv.name in _LAZY_BUILTINS and type(r_) is list else r_
             if fv.kind == 'func':
                 if (fv.mod.short, fv.name) in s.opaque_fns:
                     args, kw = s.canonical_args(fv, args, kw, depth)
@@ -1623,7 +1645,7 @@ class Evaluator:
             if fv.kind == 'ext':
                 nm = fv.name
                 r_ = s.stdlib(nm, list(args), dict(kw), mod, depth)
-                if r_ is not NotImplemented: return r_
+                if r_ is not NotImplemented: return LazyList(r_) if nm.startswith('itertools.') and type(r_) is list else r_
                 if nm.endswith('functools.partial') or nm == 'functools.partial':
                     return Opq('partial', *args, *[Opq('kw', k, v) for k, v in sorted(kw.items())])
                 if nm.split('.')[-1] in ('deepcopy', 'copy') and args: return args[0]
@@ -1720,6 +1742,7 @@ class Evaluator:
 
     def builtin(s, name, args, kw, mod, depth):
         a = args[0] if args else None
+        if name == 'globals' and not args and not kw: return Opq('globals', Ref('module', mod, None, mod.short))
         if name == 'frozenset': name = 'set'          # the same value as far as membership and equality go
         if name.endswith(('Error', 'Exception', 'Warning')) or name in ('StopIteration', 'KeyboardInterrupt', 'SystemExit'):
             return Opq('exc', name, *args)              # an exception object (never None, never false)
@@ -1883,7 +1906,8 @@ class Evaluator:
             if isinstance(args[1], (list, tuple)) and len(args[1]) <= 24:
                 return [s.apply(args[0], [x_], {}, mod, depth) for x_ in args[1]]      # concrete sequence: element by element
             it_ = _iter_view(args[1]); x_ = s.elem_of(it_, 0)
-            return Comp(s.apply(args[0], [x_], {}, mod, depth), [(_fuse_iter(it_), [])], 'list')
+            b_, fl_ = _fuse_iter2(_fuse_iter(it_))           # the filters of a filtered source travel with the generator
+            return Comp(s.apply(args[0], [x_], {}, mod, depth), [(b_, fl_)], 'list')
         if name in ('zip', 'enumerate', 'sorted', 'reversed'):
             # a generator handed to a consumer of its items is the list of its items
             args = [Comp(x_.elt, x_.gens, 'list') if isinstance(x_, Comp) and x_.kind == 'gen' else x_ for x_ in args]
@@ -2073,6 +2097,12 @@ class Evaluator:
             env = s.bind_params(fn, mod, args, kw, closure_env, depth)
             return s.ev(fn.body, env, mod, depth)
         env = s.bind_params(fn, mod, args, kw, closure_env, depth)
+        gb_ = _generator_body(fn)
+        if gb_ is not None:
+            # a generator function: the list of what it yields, in order (consumed lazily by the caller, but its body has no effects we track)
+            r_ = s.block(gb_, env, mod, depth)
+            if isinstance(r_, Comp) and r_.kind == 'list': r_ = Comp(r_.elt, r_.gens, 'gen')
+            return LazyList(r_) if type(r_) is list else r_
         return s.block(fn.body, env, mod, depth)
 
     def bind_params(s, fn, mod, args, kw, closure_env, depth):
@@ -2212,6 +2242,8 @@ class Evaluator:
                 chain = _match_as_ifs(st)
                 if chain is not None: return s.block(chain + rest, env, mod, depth)
                 return Opq('?', 'match statement with patterns that are not modelled')        # never skipped: what follows is not known
+            elif isinstance(st, ast.Try) and _lookup_try_as_if(st) is not None:
+                return s.block([_lookup_try_as_if(st)] + rest, env, mod, depth)
             elif isinstance(st, ast.Try):
                 # the body runs with the analysed program's handlers armed: a decidable exception raised before the marker statement is
                 # dispatched to the first matching handler; anything raised after the marker belongs to the code that FOLLOWS the try
@@ -2504,6 +2536,7 @@ class Evaluator:
         ok = [True]
 
         def walk(stmts, env2, level):
+            stmts = [(_lookup_try_as_if(x_) or x_) if isinstance(x_, ast.Try) else x_ for x_ in stmts]          # guarded table lookups are membership tests
             for stx in stmts:
                 if not ok[0]: return
                 if isinstance(stx, ast.Pass) or (isinstance(stx, ast.Expr) and isinstance(stx.value, ast.Constant)): continue
@@ -2538,6 +2571,12 @@ class Evaluator:
                     g = s.truth(s.ev(stx.test, env2, mod, depth))
                     if not stx.orelse and len(stx.body) == 1 and isinstance(stx.body[0], ast.Continue):
                         gens[level][1].append(s.negate(g)); s.refine_env(env2, g, False); continue
+                    if len(stx.orelse) == 1 and isinstance(stx.orelse[0], ast.Continue):
+                        # if c: body  else: continue   ==   if not c: continue; body     (what follows the if runs only when c held)
+                        gens[level][1].append(g); s.refine_env(env2, g, True)
+                        walk(stx.body, env2, level)
+                        if not ok[0]: return
+                        continue
                     if not stx.orelse:
                         before = len(gens[level][1])
                         gens[level][1].append(g)
@@ -2886,6 +2925,66 @@ def _sentinel(v):
         at = v.as_atom()
         if isinstance(at, tuple) and at[:1] == ('sentinel',): return at
     return None
+
+
+_GEN_CACHE = {}
+
+
+def _generator_body(fn):
+    """body of a generator function rewritten to collect what it yields: `yield v` -> acc.append(v), `yield from xs` -> acc.extend(xs),
+    `return` -> return acc; None for ordinary functions and for generators that use the value of a yield expression"""
+    if id(fn) in _GEN_CACHE: return _GEN_CACHE[id(fn)][1]
+    def own_nodes(n):
+        for c in ast.iter_child_nodes(n):
+            if isinstance(c, (ast.FunctionDef, ast.AsyncFunctionDef, ast.Lambda, ast.ClassDef)): continue
+            yield c
+            yield from own_nodes(c)
+    ys = [n for n in own_nodes(fn) if isinstance(n, (ast.Yield, ast.YieldFrom))]
+    out = None
+    if ys:
+        import copy as _copy
+        ok = [True]
+        ACC = '__yielded'
+        class _Y(ast.NodeTransformer):
+            def visit_FunctionDef(self, n): return n
+            def visit_Lambda(self, n): return n
+            def visit_Expr(self, n):
+                if isinstance(n.value, ast.Yield):
+                    v_ = n.value.value if n.value.value is not None else ast.Constant(value=None)
+                    return ast.copy_location(ast.Expr(value=ast.Call(func=ast.Attribute(value=ast.Name(id=ACC, ctx=ast.Load()), attr='append', ctx=ast.Load()), args=[v_], keywords=[])), n)
+                if isinstance(n.value, ast.YieldFrom):
+                    return ast.copy_location(ast.Expr(value=ast.Call(func=ast.Attribute(value=ast.Name(id=ACC, ctx=ast.Load()), attr='extend', ctx=ast.Load()), args=[n.value.value], keywords=[])), n)
+                return n
+            def visit_Return(self, n):
+                return ast.copy_location(ast.Return(value=ast.Name(id=ACC, ctx=ast.Load())), n)
+        body = [_Y().visit(_copy.deepcopy(b_)) for b_ in fn.body]
+        left = [n for b_ in body for n in ast.walk(b_) if isinstance(n, (ast.Yield, ast.YieldFrom))]
+        if not left:
+            init = ast.copy_location(ast.Assign(targets=[ast.Name(id=ACC, ctx=ast.Store())], value=ast.List(elts=[], ctx=ast.Load())), fn.body[0])
+            fin = ast.copy_location(ast.Return(value=ast.Name(id=ACC, ctx=ast.Load())), fn.body[-1])
+            out = [ast.fix_missing_locations(x_) for x_ in [init] + body + [fin]]
+    _GEN_CACHE[id(fn)] = (fn, out)
+    return out
+
+
+def _lookup_try_as_if(st):
+    """try: x = T[k]  except KeyError: H  [else: E]     ==     if k in T: x = T[k]; E   else: H        (T and k plain names / attribute paths:
+    nothing else in the guarded statement can raise KeyError)"""
+    if len(st.body) != 1 or len(st.handlers) != 1 or st.finalbody: return None
+    h = st.handlers[0]
+    if h.type is None or ast.unparse(h.type).split('.')[-1] != 'KeyError': return None
+    b = st.body[0]
+    if isinstance(b, ast.Assign) and len(b.targets) == 1 and isinstance(b.targets[0], ast.Name): val = b.value
+    elif isinstance(b, ast.AnnAssign) and isinstance(b.target, ast.Name) and b.value is not None: val = b.value
+    else: return None
+    def plain(e):
+        while isinstance(e, ast.Attribute): e = e.value
+        return isinstance(e, (ast.Name, ast.Constant))
+    if not (isinstance(val, ast.Subscript) and plain(val.value) and plain(val.slice)): return None
+    if h.name and any(isinstance(n, ast.Name) and n.id == h.name for x in h.body for n in ast.walk(x)): return None
+    test = ast.Compare(left=val.slice, ops=[ast.In()], comparators=[val.value])
+    node = ast.If(test=test, body=[b] + list(st.orelse), orelse=list(h.body) or [ast.Pass()])
+    return ast.fix_missing_locations(ast.copy_location(node, st))
 
 
 def _match_as_ifs(st):
